@@ -204,6 +204,8 @@ def _expr_simp(e):
         if op in ['+', '-', '|', "^", "<<", ">>", "<<<", ">>>"] and len(args) > 1:
             if isinstance(args[-1], ExprInt) and args[-1].arg == 0:
                 args.pop()
+                if op == '-' and len(args) == 1:
+                    return args[0]
 
         # op A => A
         if op in op_assoc + ['>>', '<<', '<<<', '>>>'] and len(args) == 1 :
